@@ -53,6 +53,10 @@ def fam_mtu(seed, n):
 def fam_probe_loss(seed, n):
     return [scen.probe_loss(seed, i) for i in range(n)]
 
+@family("evict")
+def fam_evict(seed, n):
+    return [scen.evict_script(seed, i) for i in range(n)]
+
 @family("kf")
 def fam_kf(seed, n):
     return [scen.kf_d4(seed), scen.kf_d6(seed), scen.kf_d1b(seed), scen.kf_d14(seed), scen.kf_d6b(seed), scen.kf_d5(seed)]
@@ -157,13 +161,15 @@ std_check("C07", [("peer_recv", 120, 2000), ("xfer_clean", 20, 200)],
           ["C07.NoSpontaneousAck", "C07.DelayedAck", "C07.ImmediateAck"])
 std_check("C08", [("close", 100, 1500), ("many", 40, 600)],
           ["C08.SlotFreed", "C08.EndsInTime"])
-std_check("C12", [("many", 80, 1200), ("backlog", 6, 60)],
-          ["C12.KeyUnique", "C12.LimitRespected", "C12.TableAgrees", "C12.RouteAgrees", "C12.DeliverToNamed", "C12.NoEviction"],
-          extra_prefixes=["C01."],
+SOCK_MODEL = [("MCSocket", "MCSocket_quick", "MCSocket")]
+std_check("C12", [("many", 80, 1200), ("backlog", 6, 60), ("evict", 16, 64)],
+          ["C12.KeyUnique", "C12.LimitRespected", "C12.TableAgrees", "C12.RouteAgrees", "C12.DeliverToNamed", "C12.NoEviction",
+           "C12.DeadCleanup"],
+          extra_prefixes=["C01."], model_spec=SOCK_MODEL,
           assumptions=["per-connection integrity on simultaneous connections is judged by the C01 rules on every connection (distinct streams per connection)"])
 std_check("C13", [("many", 80, 1200), ("backlog", 10, 100)],
           ["C13.AcceptFifo", "C13.BacklogBound", "C13.RefusedOnlyWhenFull", "C13.ExcessRefused", "C13.ResetMatches",
-           "C13.AcceptReturnsMatched", "C13.AcceptCallOrder", "C13.PairOnce"])
+           "C13.AcceptReturnsMatched", "C13.AcceptCallOrder", "C13.PairOnce"], model_spec=SOCK_MODEL)
 std_check("C14", [("mtu", 60, 1000), ("xfer", 20, 200), ("hostile", 20, 200)],
           ["C14.NeverAboveLink", "C14.OrdinaryWithinProven", "C14.OneProbe", "C14.Converges", "C14.LogProbes"])
 std_check("C17", [("close", 100, 1500), ("peer_send", 40, 500), ("peer_recv", 40, 500)],
